@@ -122,7 +122,7 @@ class ExtrudedShape(LoftedShape):
     # TODO: make operations universal - work on faces or sketches equally
 
     def __init__(self, sketch: Sketch, amount: Union[float, VectorType]):
-        if isinstance(amount, float) or isinstance(amount, int):
+        if np.ndim(amount) == 0:
             extrude_vector = sketch.normal * amount
         else:
             extrude_vector = np.asarray(amount)
